@@ -41,12 +41,26 @@ type StructDataProvider struct {
 }
 
 func (s *StructDataProvider) Get(key string) any {
-	field := s.value.FieldByName(key)
+	field := s.fieldByName(key)
 	// unexported fields can't be read through reflection. They are treated as missing
 	if !field.IsValid() || !field.CanInterface() {
 		return nil
 	}
 	return field.Interface()
+}
+
+// returns the field with the given name, or the zero Value if there is none.
+// A field promoted from an embedded pointer that is nil is missing (reflect.Value.FieldByName panics on it)
+func (s *StructDataProvider) fieldByName(key string) reflect.Value {
+	sf, ok := s.value.Type().FieldByName(key)
+	if !ok {
+		return reflect.Value{}
+	}
+	field, err := s.value.FieldByIndexErr(sf.Index)
+	if err != nil {
+		return reflect.Value{}
+	}
+	return field
 }
 
 func (s *StructDataProvider) GetByField(field reflect.StructField, fallback string) (any, string) {
@@ -55,7 +69,7 @@ func (s *StructDataProvider) GetByField(field reflect.StructField, fallback stri
 }
 
 func (s *StructDataProvider) GetNestedProvider(key string) DataProvider {
-	field := s.value.FieldByName(key)
+	field := s.fieldByName(key)
 	if !field.IsValid() || !field.CanInterface() {
 		return nil
 	}
